@@ -3,7 +3,8 @@
 corr  : the Lean cache model (lean/MakoModel/Cache/Model.lean, op `cache run`) against the real mako code on
         generated worlds (1-3 templates sharing one back end) x histories (<= 30 ops) of
         {render c, invalidate_body, invalidate_def d, invalidate_closure d, invalidate k, set k v, get k,
-        cache_enabled = b}.  Compared per step: render output / value returned by get, the execution counter's
+        cache_enabled = b, and "the last template is bound to an earlier one's URI now" (put_string again)}.
+        Compared per step: render output / value returned by get, the execution counter's
         log (a counting function handed in through the context and called at the start of every section body),
         and every back-end call with its keyword arguments (recording CacheImpl registered through
         mako.cache.register_plugin; Beaker and dogpile are observed through a recording proxy around
@@ -12,7 +13,11 @@ oracle: a reference history interpreter written from the property text (no Lean,
         source): expected output = what the uncached section produced when its entry was created; body
         executed iff the back end holds nothing under the section's key (or caching is disabled); back-end
         arguments = Template cache_args (+) <%page> cache_* (+) the section's own, timeout an int, context iff
-        pass_context; entries belong to the template that created them.
+        pass_context; entries belong to the template that created them (a template that replaces another one under
+        its URI is another template).  Fixed families besides the generated worlds: two templates sharing one back
+        end with URIs that differ only in punctuation; set/get/invalidate on every back end; a URI re-bound by
+        put_string, by a file edit + lookup reload, by a recycled memory:0x.. id, with and without cache_timeout.
+A case that hangs (a back end waiting for a lock it holds) is cut off by a per-case watchdog and reported.
 """
 from __future__ import annotations
 
@@ -33,12 +38,13 @@ RULE = ("worlds of 1-3 generated templates sharing one back end; a template = op
         "(literal / ${var} / mixed; colliding keys allowed on the recording back end) p=.35, cache_type/foo/timeout/dyn "
         "attributes at template, page and section level; defs take one string argument and are called with literals, "
         "context variables and enclosing parameters, with and without an expression filter at the call site; "
-        "histories of 4-30 ops with contexts over x,y in {1,2,3}; URIs in a world may differ only in punctuation; in ~1/4 of "
-        "the multi-template worlds the last template REPLACES an earlier one under the same URI in mid-history (put_string "
+        "histories of 4-30 ops with contexts over x,y in {1,2,3}; URIs in a world may differ only in punctuation; in ~45 % of "
+        "the multi-template worlds (not on dogpile) the last template REPLACES an earlier one under the same URI in mid-history (put_string "
         "again; op P), with and without cache_timeout; a fixed family re-binds a URI by put_string, by a file edit + lookup "
         "reload (filesystem_checks) and by a recycled memory:0x.. id, for timeouts 0/1000/86400 on the reference back end and "
         "Beaker memory/file; "
-        "back ends: recording dict CacheImpl (pass_context on/off), Beaker memory, Beaker file (thorough), dogpile "
+        "back ends: recording dict CacheImpl (one dict for all templates, namespaced by Cache.id and by the `type` argument, "
+        "honouring Cache.starttime; pass_context on/off), Beaker memory, Beaker file (thorough), dogpile "
         "memory; a case is non-trivial when at least one cached section is served from the back end and at least one "
         "is re-created after an invalidation / toggle; distinct = distinct (world, history)")
 ASSUMPTIONS = [
@@ -64,8 +70,9 @@ KINDS = {"page": 0, "topdef": 1, "nested": 2, "nblock": 3, "ablock": 4}
 # parts  : [["l", "lit"], ["v", "x"], ...]
 # sec    : {"kind","name","label","param","cached","buffered","filtered","key":parts|None,"attrs":[[attr,parts]],"body":[node]}
 # node   : ["t", s] | ["v", x] | ["k", tag] | ["c", defname, parts|None, site] | ["d", sec] | ["b", sec]
-# tmpl   : {"uri","cache_args":[[k,v]],"enabled":bool,"has_page":bool,"page":sec}
-# op     : ["R",t,{ctx}] ["B",t] ["D",t,d] ["C",t,d] ["X",t,k,kw] ["S",t,k,v,kw] ["G",t,k,kw] ["N",t,b]   kw = [[k,v]]
+# tmpl   : {"uri","cache_args":[[k,v]],"enabled":bool,"has_page":bool,"page":sec[,"late":True,"replaces":index]}
+# op     : ["R",t,{ctx}] ["B",t] ["D",t,d] ["C",t,d] ["X",t,k,kw] ["S",t,k,v,kw] ["G",t,k,kw] ["N",t,b] ["P",t]   kw = [[k,v]]
+#          (P t: the late template t is bound to the URI of the template it replaces now)
 
 
 def parts_src_attr(parts):
